@@ -34,3 +34,7 @@ COMP_NOTE = ("Trusted base: Hypothesis, the harness's independent reference (re-
 TABLE["C20"] = dict(engine="component", technique="property-based testing: Hypothesis-generated JSON hint lists (field-wise mutations of valid hints, every JSON type in every position, random recursive dicts); oracle = no exception + dialled (host,port) set equals an independent reference filter + encode/parse round trip",
     text="Three drivers: _hints.parse_hint/parse_tcp_v1_hint directly, Transit{Sender,Receiver}.add_connection_hints+connect() on the simulated reactor (what is dialled is observed at connectTCP), and (where registered) a real dilating peer sending the list. The crashes this found on the pinned tree were repaired in repo commit 42cc806 (fix:) and are kept as regression replays.",
     note=COMP_NOTE)
+
+TABLE["C19"] = dict(engine="component", technique="property-based testing + exhaustive enumeration of the byte->word map: Hypothesis-generated code lengths, malformed codes/nameplates, typed prefixes and server nameplate lists against real wormholes on the real server; entropy decided by enumerating os.urandom (256 values x 8 positions, 65536 pairs)",
+    text="Four generated parts (allocate structure, validation incl. 'nothing sent', completion through the real Input helper and CodeInputter, only-one-code) plus an exhaustive part run in both tiers. The trailing-newline nameplate this found was repaired in repo commit a53d28e (fix:).",
+    note=COMP_NOTE + " os.urandom itself is trusted.")
